@@ -61,6 +61,12 @@ class World:
         # anything remembered across calls under such a key shows when they are resolved in different orders
         self.templates.append({"Resources": {"Flag": {"Type": "Custom::Flag", "Properties": {"Enabled": True, "Off": False, "Join": {"Fn::Join": [":", ["b", True, False]]}}}}})
         self.templates.append({"Resources": {"Counter": {"Type": "Custom::Counter", "Properties": {"Weight": 1.0, "Ratio": 0.0, "One": 1, "Zero": 0, "Join": {"Fn::Join": [":", ["w", 1.0, 0.0, 1, 0]]}}}}})
+        # a template that parses but whose resolved form no longer validates (the properties of a modelled type become text):
+        # a call that fails must leave the world as it found it, too
+        self.templates.append({"Parameters": {"RoleProperties": {"Type": "String", "Default": "not-an-object"}},
+                               "Resources": {"Role": {"Type": "AWS::IAM::Role", "Properties": {"Ref": "RoleProperties"}}}})
+        # ... and one that does not parse at all (a modelled type without its required properties)
+        self.templates.append({"Resources": {"Role": {"Type": "AWS::IAM::Role", "Properties": {"RoleName": "no-trust-policy"}}}})
         from pycfmodel.model.resources.properties.statement_condition import StatementCondition as _SC
 
         self.conds.append(_SC.model_validate({"StringLike": {"aws:PrincipalTag/op": pat}}))
